@@ -358,6 +358,7 @@ main (int argc, char **argv)
 		int n, j, want = i < 3 ? len : plen;
 		if (fscanf (in, "%131071s", tok) != 1) return 3;
 		n = (int)strlen (tok) / 2;
+		if (i == 0 && n >= len) len = want = n;	/* planar formats: the buffers hold the whole allocation */
 		if (n != want) return 3;
 		if (posix_memalign ((void **)&bufs[i], 16, n + 16)) return 3;
 		for (j = 0; j < n; j++)
